@@ -343,9 +343,92 @@ def emit(info):
     w("  - exact wrong_type.")
     w("Qed.")
     open(os.path.join(OUT, mod + ".v"), "w").write("\n".join(L) + "\n")
+    emit_exact(planet, fname, mod, fun, two, auxn, funs, unf, redm, redargs, rad)
     return mod, {"A": float(info["a"][1]), "B": float(info["b"][1]), "c0": float(c0), "C": float(C), "two": two,
                  "aux": auxn}
 
+
+
+def emit_exact(planet, fname, mod, fun, two, auxn, funs, unf, redm, redargs, rad):
+    """C13_x_<finder>.v (thorough tier): the same evaluation with Epoch(x) = the Epoch holding x (C02's theorem)"""
+    L = []
+    w = L.append
+    w("(* %s.%s (thorough tier) -- the closed form without the hypothesis about Epoch(x): the instant handed to Epoch()" % (planet, fname))
+    w("   is in the range of C02's Epoch_ctor_exact_ideal, so the returned Epoch holds exactly A + k B + periodic terms.")
+    w("   Written by mkfinders.py (checked in). *)")
+    w("From Coq Require Import Reals ZArith List Bool Lra Lia String.")
+    w("From PyLib Require Import PyVal PyBuiltins Ideal Whnf PyEval.")
+    w("From Spec Require Import Finder.")
+    w("From Gen Require Import M_base M_Angle M_Epoch M_%s." % planet)
+    w("From Proofs.C02 Require Import C02_ctor_ideal.")
+    w("From Proofs.C13 Require Import C13_angle C13_tac C13_defs C13_main C13_x_defs %s." % mod)
+    w("Import ListNotations.")
+    w("Open Scope R_scope.")
+    w("Ltac2 Set Whnf.is_blocked as old := fun c =>")
+    w("  Ltac2.Bool.or (old c) (Ltac2.List.exist (Ltac2.Constr.equal c)")
+    w("    ['@Epoch_year; '@Angle___init__; '@Angle_to_positive; '@Epoch___init__]).")
+    w("")
+    w("Lemma amp : Rabs c0 + C <= 200.")
+    w("Proof. unfold c0, C. lit_norm. unfold Rabs. destruct (Rcase_abs _); lra. Qed.")
+    w("Lemma X_in_range y : -2000 <= y <= 4000 -> jde_in_range (j0 (kofy y) + cr (kofy y)).")
+    w("Proof.")
+    w("  intro Hy. rewrite <- found_spec. apply found_in_range with (c0 := c0) (C := C); [| exact amp | exact Hy].")
+    w("  exact (%s _ _ _ _ _ _ %sok)." % ("timing2" if two else "timing1", "_ " if two else ""))
+    w("Qed.")
+    w("")
+    w("Section Run.")
+    w("  Variables (j y : R).")
+    w("  Hypothesis Hy : Epoch_year Rops (VObj cEpoch [VFloat j]) = VFloat y.")
+    w("  Lemma closed_exact : -2000 <= y <= 4000 ->")
+    if two:
+        w("    %s Rops (VObj cEpoch [VFloat j]) =" % fun)
+        w("    VTuple [VObj cEpoch [VFloat (j0 (kofy y) + cr (kofy y))]; angle_val (el (kofy y))].")
+    else:
+        w("    %s Rops (VObj cEpoch [VFloat j]) = VObj cEpoch [VFloat (j0 (kofy y) + cr (kofy y))]." % fun)
+    w("  Proof.")
+    w("    intros Hr.")
+    w("    destruct (ang_init_mk (marg (kofy y))) as (n1 & Hr1 & H1).")
+    w("    destruct (ang_to_positive_mk _ Hr1) as (n2 & Hr2 & H2).")
+    hyps = ["H1", "H2"]
+    for a in auxn:
+        w("    destruct (ang_init_mk (aux_%s (tt (kofy y)))) as (n_%s & Hr_%s & H_%s)." % (a, a, a, a))
+        hyps.append("H_" + a)
+    if two:
+        w("    pose proof (elon_bound %s (tt_range y Hr)) as Hel." % redargs)
+        w("    pose proof (ang_init_small_mk _ (conj (Rlt_le_trans (-360) 0 _ ltac:(lra) (proj1 Hel)) (proj2 Hel))) as H3.")
+        w("    pose proof (ang_to_positive_id_mk _ Hel) as H4.")
+        hyps += ["H3", "H4"]
+    def turns(where):
+        out = []
+        fs = ["corr"] if where else funs
+        for f in fs:
+            out.append("    rewrite <- (%s_turn_m (tt (kofy y)) %s (marg (kofy y)) n1)%s." % (f, " ".join(rad("aux_%s (tt (kofy y))" % a) for a in auxn), where))
+            out.append("    rewrite <- (%s_turn_m (tt (kofy y)) %s (marg (kofy y) - 360 * IZR n1) n2)%s." % (f, " ".join(rad("aux_%s (tt (kofy y))" % a) for a in auxn), where))
+            for i, a in enumerate(auxn):
+                others = [rad(redm)] + [rad("(aux_%s (tt (kofy y)) - 360 * IZR n_%s)" % (b, b)) if k < i else rad("aux_%s (tt (kofy y))" % b)
+                                        for k, b in enumerate(auxn) if b != a]
+                out.append("    rewrite <- (%s_turn_%s (tt (kofy y)) %s (aux_%s (tt (kofy y))) n_%s)%s." % (f, a, " ".join(others), a, a, where))
+        return out
+    w("    pose proof (X_in_range y Hr) as HX. unfold cr in HX.")
+    for l in turns(" in HX"): w(l)
+    w("    pose proof (Epoch_ctor_exact_ideal _ HX) as HE.")
+    w("    unfold corr, %s in HE." % unf)
+    w("    unfold %s in %s." % (unf, ", ".join(hyps)))
+    w("    pyrun2.")
+    w("    unfold cr%s." % (", el, angle_val" if two else ""))
+    for l in turns(""): w(l)
+    w("    unfold corr, %s." % unf)
+    w("    reflexivity.")
+    w("  Qed.")
+    w("End Run.")
+    w("")
+    if two:
+        w("Theorem exact : finder_exact2 (%s Rops) A B cr el." % fun)
+        w("Proof. intros j y Hy Hr. rewrite found_spec, <- kofy_spec. exact (closed_exact j y Hy Hr). Qed.")
+    else:
+        w("Theorem exact : finder_exact (%s Rops) A B cr." % fun)
+        w("Proof. intros j y Hy Hr. rewrite found_spec. exact (closed_exact j y Hy Hr). Qed.")
+    open(os.path.join(OUT, mod.replace("C13_f_", "C13_x_") + ".v"), "w").write("\n".join(L) + "\n")
 
 if __name__ == "__main__":
     only = sys.argv[2:] if len(sys.argv) > 2 else None
@@ -361,3 +444,44 @@ if __name__ == "__main__":
                 print("SKIP %s.%s: %s" % (planet, f, e))
     import json
     json.dump(table, open(os.path.join(OUT, "finders.json"), "w"), indent=1, sort_keys=True)
+    if not only:
+
+        # thorough-tier statement files: the finder theorems without the Epoch(x) hypothesis
+        ORB = ["Mercury", "Venus", "Earth", "Mars", "Jupiter", "Saturn", "Uranus"]
+        for planet in list(FINDERS) + ["Earth"]:
+            ks = [k for k in sorted(table) if k.startswith(planet + ".")]
+            L = []
+            w = L.append
+            w("(* Property C13 (thorough tier) -- %s: the finder theorems with Epoch(x) = the Epoch holding exactly x (property C02's" % planet)
+            w("   Epoch_ctor_exact_ideal) instead of a hypothesis.  Remaining hypotheses: the value of Epoch.year; for perihelion_aphelion also")
+            w("   the VSOP87 positions, Interpolation()/minmax() and that the interpolated extremum lies inside its window.  T13_* obligations:")
+            w("   compiled in the thorough tier, not listed in THEOREMS. *)")
+            w("From Coq Require Import Reals ZArith List Bool Lra Lia String.")
+            w("From PyLib Require Import PyVal PyBuiltins Ideal.")
+            w("From Spec Require Import Finder OrbitFinder.")
+            w("From Gen Require Import M_base M_Angle M_Epoch M_Interpolation M_%s." % planet)
+            w("From Proofs.C13 Require Import C13_defs C13_pdefs C13_x_defs C13_xp_defs.")
+            for k in ks:
+                n = k.replace(".", "_")
+                w("From Proofs.C13 Require C13_f_%s C13_x_%s." % (n, n))
+            if planet in ORB: w("From Proofs.C13 Require C13_p_%s C13_xp_%s." % (planet, planet))
+            w("Import ListNotations.")
+            w("Open Scope R_scope.")
+            names = []
+            for k in ks:
+                n = k.replace(".", "_"); m = "C13_f_" + n
+                if table[k]["two"]:
+                    w("Theorem T13_%s_exact : finder_exact2 (%s Rops) %s.A %s.B %s.cr %s.el." % (n, n, m, m, m, m))
+                else:
+                    w("Theorem T13_%s_exact : finder_exact (%s Rops) %s.A %s.B %s.cr." % (n, n, m, m, m))
+                w("Proof. exact C13_x_%s.exact. Qed." % n)
+                names.append("T13_%s_exact" % n)
+            if planet in ORB:
+                m = "C13_p_" + planet
+                w("Theorem T13_%s_perihelion_aphelion_exact :" % planet)
+                w("  peri_exact (%s_perihelion_aphelion Rops) (%s_geometric_heliocentric_position Rops) %s.J0 %s.P %s.c %s.a %s.y0 %s.h %s.corr." % (planet, planet, m, m, m, m, m, m, m))
+                w("Proof. exact C13_xp_%s.exact. Qed." % planet)
+                names.append("T13_%s_perihelion_aphelion_exact" % planet)
+            for nme in names:
+                w('Redirect "%s.assumptions" Print Assumptions %s.' % (nme, nme))
+            open(os.path.join(OUT, "C13_sx_%s.v" % planet), "w").write("\n".join(L) + "\n")
